@@ -146,6 +146,133 @@ func c13Run(w *ndWriter, rng *rand.Rand, askers int, classes []string, modes []s
 	return rec.flush(w)
 }
 
+// replies arriving right at the deadline: every asker has its own actor, which answers timeout + delta after it received the
+// request (delta swept through zero).  Either outcome is admissible - (F(msg), nil) or (zero, timeout) - but nothing may panic.
+func c13Boundary(w *ndWriter, askers int) int {
+	rec := &recorder{}
+	rec.ev(E{"ev": "reset", "n": askers + 1})
+	to := 800 * time.Microsecond
+	var wg sync.WaitGroup
+	for a := 1; a <= askers; a++ {
+		a := a
+		delta := time.Duration(a-askers/2) * 4 * time.Microsecond
+		msg := 100 + a
+		actor := fpgo.ActorNewGenerics(func(self *fpgo.ActorDef[interface{}], in interface{}) {
+			ask, ok := in.(*fpgo.AskDef[int, int])
+			if !ok {
+				return
+			}
+			start := time.Now()
+			for time.Since(start) < to+delta { // busy wait: sleep granularity is too coarse for this window
+			}
+			outcome := "ok"
+			func() {
+				defer func() {
+					if p := recover(); p != nil {
+						outcome = "panic"
+					}
+				}()
+				ask.Reply(10*ask.Message + 1)
+			}()
+			rec.ev(E{"ev": "reply", "req": a, "outcome": outcome})
+		})
+		rec.ev(E{"ev": "ask", "req": a, "msg": msg, "mode": "timeout", "class": "boundary"})
+		wg.Add(1)
+		go func() {
+			defer wg.Done()
+			val, errk := 0, "nil"
+			func() {
+				defer func() {
+					if p := recover(); p != nil {
+						errk = "panic"
+					}
+				}()
+				v, err := fpgo.AskNewGenerics[int, int](msg).AskOnceWithTimeout(actor, to)
+				val = v
+				if err == fpgo.ErrActorAskTimeout {
+					errk = "timeout"
+				} else if err != nil {
+					errk = "other"
+				}
+			}()
+			rec.ev(E{"ev": "res", "req": a, "val": val, "err": errk})
+		}()
+	}
+	wg.Wait()
+	time.Sleep(3 * time.Millisecond) // late replies (and anything a timer goroutine does) happen now
+	rec.ev(E{"ev": "probe", "ok": true})
+	return rec.flush(w)
+}
+
+// one Ask object asked again and again (a new message each time, AskChannel), finishing with AskOnceWithTimeout: every
+// request must get its own answer
+func c13ReAsk(w *ndWriter, goroutines, times int) int {
+	rec := &recorder{}
+	rec.ev(E{"ev": "reset", "n": goroutines*(times+1) + 1})
+	var mu sync.Mutex
+	cur := map[interface{}]int{} // ask object -> current request number
+	actor := fpgo.ActorNewGenerics(func(self *fpgo.ActorDef[interface{}], in interface{}) {
+		ask, ok := in.(*fpgo.AskDef[int, int])
+		if !ok {
+			return
+		}
+		mu.Lock()
+		req := cur[ask]
+		mu.Unlock()
+		outcome := "ok"
+		func() {
+			defer func() {
+				if p := recover(); p != nil {
+					outcome = "panic"
+				}
+			}()
+			ask.Reply(10*ask.Message + 1)
+		}()
+		rec.ev(E{"ev": "reply", "req": req, "outcome": outcome})
+	})
+	var wg sync.WaitGroup
+	for g := 0; g < goroutines; g++ {
+		wg.Add(1)
+		go func(g int) {
+			defer wg.Done()
+			ask := fpgo.AskNewGenerics[int, int](0)
+			for k := 0; k <= times; k++ {
+				req := g*(times+1) + k + 1
+				msg := 1000*(g+1) + k
+				ask.Message = msg
+				mu.Lock()
+				cur[ask] = req
+				mu.Unlock()
+				val, errk := 0, "nil"
+				if k < times {
+					rec.ev(E{"ev": "ask", "req": req, "msg": msg, "mode": "channel", "class": "immediate"})
+					select {
+					case val = <-ask.AskChannel(actor):
+					case <-time.After(2 * time.Second):
+						errk = "lost"
+					}
+				} else {
+					rec.ev(E{"ev": "ask", "req": req, "msg": msg, "mode": "timeout", "class": "immediate"})
+					v, err := ask.AskOnceWithTimeout(actor, 500*time.Millisecond)
+					val = v
+					if err == fpgo.ErrActorAskTimeout {
+						errk = "timeout"
+					} else if err != nil {
+						errk = "other"
+					}
+				}
+				rec.ev(E{"ev": "res", "req": req, "val": val, "err": errk})
+				if errk != "nil" {
+					return
+				}
+			}
+		}(g)
+	}
+	wg.Wait()
+	rec.ev(E{"ev": "probe", "ok": true})
+	return rec.flush(w)
+}
+
 func c13Main(args []string) error {
 	switch args[0] {
 	case "record":
@@ -172,6 +299,11 @@ func c13Main(args []string) error {
 		for r := 0; r < 2+rounds/10; r++ {
 			n += c13Run(w, rng, 64, []string{"prompt"}, []string{"timeout"})
 			runs++
+		}
+		for r := 0; r < 3+rounds/10; r++ {
+			n += c13Boundary(w, 48)
+			n += c13ReAsk(w, 1+r%8, 4)
+			runs += 2
 		}
 		fmt.Printf("{\"events\":%d,\"runs\":%d}\n", n, runs)
 		return nil
